@@ -131,7 +131,7 @@ def d11_probe(sc):
     class M(StateMachine):
         s0 = State(initial=True)
         s1 = State()
-        go = s0.to(s1)
+        go = s0.to(s1) | s1.to(s0)
 
     class L:
         async def after_go(self):
